@@ -428,9 +428,64 @@ class Effects:
                 bt, ast.unparse(n.slice), st_, bt, st_, why)}, why="parallel-index"))
         return True
 
+    def _descending_scan(self, n, stmt, f, stack, sites):
+        """X[i] in the test of a `while` whose body counts i down: i must start at len(X) - 1 with X known non-empty, and
+        the body must leave the loop when i has passed the front (`i == -1` / `i < 0`) right after the decrement; any other
+        stop value lets i run to -len(X) - 1 (negative indices wrap once, then IndexError)"""
+        from .ctx import conjuncts, enclosing_tests
+        sl = n.slice
+        if not isinstance(sl, ast.Name):
+            return
+        loops = [w for w in iter_own_nodes(f.node) if isinstance(w, ast.While) and any(x is n for x in ast.walk(w.test))]
+        if not loops:
+            return
+        w = loops[0]
+        dec = [x for x in w.body if isinstance(x, ast.AugAssign) and isinstance(x.target, ast.Name) and x.target.id == sl.id
+               and isinstance(x.op, ast.Sub) and isinstance(x.value, ast.Constant) and x.value.value == 1]
+        if not dec:
+            return
+        seq = " ".join(ast.unparse(n.value).split())
+        if isinstance(n.value, ast.Name):
+            # a ring scan over a constant table (days[day_index] != day, the index wraps by design): out of this rule's scope
+            lits = [x.value for x in iter_own_nodes(f.node) if isinstance(x, ast.Assign) and len(x.targets) == 1
+                    and isinstance(x.targets[0], ast.Name) and x.targets[0].id == n.value.id]
+            if lits and all(isinstance(v, (ast.List, ast.Tuple)) and all(isinstance(e, ast.Constant) for e in v.elts) for v in lits):
+                return
+        why = None
+        # stop test right after the decrement
+        idx = w.body.index(dec[0])
+        nxt = w.body[idx + 1] if idx + 1 < len(w.body) else None
+        stop_ok = False
+        if isinstance(nxt, ast.If) and nxt.body and isinstance(nxt.body[-1], (ast.Return, ast.Break, ast.Raise)):
+            t = " ".join(ast.unparse(nxt.test).split())
+            stop_ok = t in ("%s == -1" % sl.id, "%s < 0" % sl.id, "%s <= -1" % sl.id, "-1 == %s" % sl.id)
+            if not stop_ok:
+                why = "the stop test `%s` does not catch the first index below 0" % t
+        else:
+            why = "no stop test follows the decrement"
+        # start value and non-emptiness
+        starts = [x for x in iter_own_nodes(f.node) if isinstance(x, ast.Assign) and len(x.targets) == 1 and isinstance(x.targets[0], ast.Name)
+                  and x.targets[0].id == sl.id]
+        start_ok = len(starts) == 1 and " ".join(ast.unparse(starts[0].value).split()) == "len(%s) - 1" % seq
+        nonempty = False
+        for t_, pol in enclosing_tests(f.node, w):
+            for a, p in conjuncts(t_, pol):
+                ta = " ".join(ast.unparse(a).split())
+                if (ta in ("len(%s) == 0" % seq, "not %s" % seq) and not p) or (ta in (seq, "len(%s) > 0" % seq, "len(%s) != 0" % seq, "len(%s)" % seq) and p) \
+                        or (ta == "len(%s) == 0" % seq and not p):
+                    nonempty = True
+        if stop_ok and start_ok and nonempty:
+            return
+        if why is None:
+            why = "the counter does not start at len(%s) - 1" % seq if not start_ok else "%s may be empty" % seq
+        sites.append(Site(f, n, stmt, "prim", stack, excs={
+            "IndexError": "descending scan %s[%s]: %s" % (seq, sl.id, why)}, why="descending-scan"))
+
     def _subscript(self, n, stmt, f, stack, sites):
         """look-ahead rule: seq[i +- k] with i a loop index; parallel-index rule: B[i] with i the position in another list"""
         sl = n.slice
+        if isinstance(sl, ast.Name) and isinstance(n.ctx, ast.Load) and sl.id not in loop_index_vars(f):
+            self._descending_scan(n, stmt, f, stack, sites)
         if isinstance(sl, ast.Name) and isinstance(n.ctx, (ast.Load, ast.Store)) and sl.id in loop_index_vars(f):
             self._parallel_index(n, stmt, f, stack, sites, sl.id, 0)
         if not isinstance(n.ctx, ast.Load):
